@@ -195,6 +195,51 @@ Theorem hungarian_sizes_irrelevant :
     sort_voting km thr n cols s = Some W -> hung_winners km thr s = Some (canon_w W).
 Proof. exact hung_winners_any_sizes_lemma. Qed.
 
+(* ---- Visual voting (VisualVoting::winners: best fit on the feature distances, then SortVoting on what remains) ------- *)
+(* s : list vd carries per entry the feature distance and the integer positional weight.  vis_feature = the Visual
+   entries (every query with an eligible visual claim -> the track of its heaviest claim if that claim won, else itself);
+   vis_rem = the sub-stream handed to the positional stage.  visual_winners is TOTAL-with-option (None = panic, which does
+   not happen on tie-free streams) and canonical (sorted by query id): equality is Leibniz.
+   vis_tie_free = distinct weights among comparable best-fit claims (as in bestfit_perm_invariant) and hung_tie_free of
+   the remaining positional sub-stream. *)
+
+(* ORDER INDEPENDENCE, in the shape C05 needs *)
+Theorem visual_winners_perm_invariant :
+  forall km thr maxd minv, (0 < thr)%Z -> km_ok km ->
+    forall s1 s2, Permutation s1 s2 -> vis_tie_free thr maxd minv s1 ->
+      visual_winners km thr maxd minv s1 = visual_winners km thr maxd minv s2.
+Proof. exact visual_winners_perm_invariant_lemma. Qed.
+
+(* a visually awarded track goes to its heaviest claimant, and it is that query's heaviest claim *)
+Theorem visual_award_is_heaviest :
+  forall maxd minv s q t, ids_disjoint (map vd_dist s) -> In (q, t) (vis_feature maxd minv s) -> t <> q ->
+    exists w, In (q, t, w) (cands maxd minv (map vd_dist s)) /\
+              (forall q' w', In (q', t, w') (cands maxd minv (map vd_dist s)) -> (w' <= w)%Q) /\
+              (forall t' w', In (q, t', w') (cands maxd minv (map vd_dist s)) -> (w' <= w)%Q).
+Proof. exact visual_award_is_heaviest_lemma. Qed.
+
+(* every query with an eligible visual claim gets a Visual entry ... *)
+Theorem visual_claimant_has_entry :
+  forall maxd minv s q t w, In (q, t, w) (cands maxd minv (map vd_dist s)) -> exists t', In (q, t') (vis_feature maxd minv s).
+Proof. exact visual_claimant_has_entry_lemma. Qed.
+
+(* ... claimants and visually excluded tracks never enter the positional stage ... *)
+Theorem visual_claimants_never_positional :
+  forall maxd minv s p, In p (vis_rem maxd minv s) ->
+    ~ In (p_from p) (map fst (vis_feature maxd minv s)) /\ ~ In (p_to p) (map snd (vis_feature maxd minv s)).
+Proof. exact vis_rem_not_claimant. Qed.
+
+(* ... and the answer has at most one entry per query: the Visual entries are exactly vis_feature, the Positional entries
+   are exactly one per query of the remaining sub-stream, none of them a claimant *)
+Theorem visual_one_entry_per_query :
+  forall km thr maxd minv s R, (0 < thr)%Z -> km_ok km -> hung_tie_free thr (vis_rem maxd minv s) ->
+    visual_raw km thr maxd minv s = Some R ->
+    NoDup (map fst R) /\
+    (forall q t, In (q, (t, Visual)) R <-> In (q, t) (vis_feature maxd minv s)) /\
+    (forall q, In q (froms (vis_rem maxd minv s)) -> exists t, In (q, (t, Positional)) R) /\
+    (forall q t, In (q, (t, Positional)) R -> In q (froms (vis_rem maxd minv s)) /\ ~ In q (map fst (vis_feature maxd minv s))).
+Proof. exact visual_raw_shape_lemma. Qed.
+
 (* ---- non-vacuity ---------------------------------------------------------------------------------------------- *)
 (* the repository's unit-test stream, moved to a dyadic grid: two queries, three tracks each, N = 2 *)
 Definition ex_stream : list dist :=
@@ -268,3 +313,14 @@ Proof.
     intros W W' G G' V V'. change (fst (fst (best_partial 30%Z [(10%N, 1%N, 60%Z); (10%N, 2%N, 50%Z); (11%N, 1%N, 55%Z)]))) with 105%Z in V, V'.
     rewrite (H W G V), (H W' G' V'). reflexivity.
 Qed.
+
+(* visual voting: the repository's unit test `test_visual_positional_competitive_match_2` on dyadic values: query 1 wins
+   track 2 visually, query 11 goes to the positional stage and gets track 3; reversing the stream changes nothing *)
+Example c17_nonvacuous_visual :
+  let s := [mkv 1 2 (Some 750000%Z) (Some (3#4)); mkv 1 2 None (Some (11#16)); mkv 1 2 None (Some (21#32));
+            mkv 1 3 (Some 750000%Z) (Some (3#4)); mkv 1 3 None (Some (41#64));
+            mkv 11 2 (Some 875000%Z) (Some (3#4)); mkv 11 3 (Some 625000%Z) (Some (41#64))]%Q in
+  vis_feature (3#4) 2 s = [(1%N, 2%N)] /\ vis_rem (3#4) 2 s = [(11%N, 3%N, 625000%Z)] /\
+  visual_winners (fun _ => [1]) 250000%Z (3#4) 2 s = Some [(1%N, (2%N, Visual)); (11%N, (3%N, Positional))] /\
+  visual_winners (fun _ => [1]) 250000%Z (3#4) 2 (rev s) = Some [(1%N, (2%N, Visual)); (11%N, (3%N, Positional))].
+Proof. cbv zeta. repeat split; vm_compute; reflexivity. Qed.
